@@ -37,9 +37,11 @@ def main():
     # 2. demo fails with / passes without
     if demo_pkg:
         rc_with, o_with = sh("go test -vet=off -count=1 -tags verif -run 'Demo' %s 2>&1 | tail -5" % demo_pkg, cwd=wt)
-        sh("git stash push -- $(git diff --name-only -- . ':!*zz_demo_test.go')", cwd=wt)
+        # (no `git stash`: the stash is shared by all worktrees of a repository)
+        pf = os.path.join(d, "patch.diff")
+        sh("git apply -R %s" % pf, cwd=wt)
         rc_wo, o_wo = sh("go test -vet=off -count=1 -tags verif -run 'Demo' %s 2>&1 | tail -5" % demo_pkg, cwd=wt)
-        sh("git stash pop", cwd=wt)
+        sh("git apply %s" % pf, cwd=wt)
         meta["demo_with_change"] = o_with.strip().splitlines()[-1] if o_with.strip() else ""
         meta["demo_without_change"] = o_wo.strip().splitlines()[-1] if o_wo.strip() else ""
         meta["demo_ok"] = ("FAIL" in o_with) and ("ok" in o_wo and "FAIL" not in o_wo)
